@@ -482,6 +482,24 @@ def size_agreement(ctx, P, rule):
                                    ('target' if (e2.k == 'ret' and e2.e is not None and const_of(strip_casts(e2.e)) == 0) else None), refine=False)
                     if wq is not None:
                         why_helper = '%s() accepts a text payload on a path that keeps the caller\'s data_size (%s)' % (g.name, wq.render()[:120])
+            # the measured length never falls back to what the caller stated: follow the value stored through the out
+            # parameter to its definitions
+            for ev in outs:
+                out_name = strip_casts(strip_casts(ev.store_parts()[0])['k'][0]).get('name')
+                work = [ev.store_parts()[1]]
+                seen_l = set()
+                while work:
+                    e_ = work.pop()
+                    for nd in walk(e_ or {}):
+                        if nd.get('op') == 'un' and nd.get('o') == '*' and strip_casts(nd['k'][0]).get('name') == out_name:
+                            why_helper = why_helper or '%s() can hand back the caller\'s data_size as the length of a text payload (no terminator found inside it)' % g.name
+                        if nd.get('op') == 'ref' and nd.get('rk') == 'local' and nd.get('name') not in seen_l:
+                            seen_l.add(nd['name'])
+                            for d_ in g.events():
+                                if d_.k == 'decl' and d_.name == nd['name'] and d_.e is not None:
+                                    work.append(d_.e)
+                                elif d_.k == 'store' and strip_casts(d_.store_parts()[0]).get('name') == nd['name'] and d_.store_parts()[1] is not None:
+                                    work.append(d_.store_parts()[1])
         if why_helper:
             ok = False
         ctx.ob(rule, ok, tw.name, 'payload length for text storage types', sends[0].where(),
